@@ -50,6 +50,7 @@ func runC13(c *Ctx, pr *PropertyRun) {
 	// numeric request elements are unsigned: the decoder refuses a negative value
 	unsignedElementsRule(c, pr, "C13")
 	typedNilRule(c, pr, "C13")
+	validateBeforeAnswerRule(c, pr, "C13")
 	// enumerated attribute values outside the RFC's lists are refused by the
 	// decoders — and what is stored is the value that was tested (shared
 	// with C08/C09.enums)
@@ -1224,4 +1225,199 @@ func posOf(p *Program, o *errOrigin) string {
 		return p.instrPos(o.Site)
 	}
 	return p.Pos(o.Fn.Pos())
+}
+
+// validateBeforeAnswerRule: a handler that answers with a multi-status has
+// looked at the whole request first. Every call that checks a part of the
+// decoded request (an in-module function fed from the request value only,
+// whose error the handler hands on) lies on every path to every answer: an
+// answer moved in front of the checks (a shortcut for "nothing is asked for")
+// accepts requests the checks refuse with 400.
+func validateBeforeAnswerRule(c *Ctx, pr *PropertyRun, prop string) {
+	p := c.P
+	r := NewRule(prop, prop+".validate-before-answer", "in every handler that writes a multi-status, each check of the decoded request dominates each answer (a check inside a loop counts through the loop's entry) (E4)")
+	pr.Rules = append(pr.Rules, r)
+	answer := p.MustFunc(r, pkgInternal, "ServeMultiStatus")
+	if answer == nil {
+		return
+	}
+	for _, fn := range p.ModFns {
+		if !inLib(fn) || len(fn.Blocks) == 0 || fn.Parent() != nil {
+			continue
+		}
+		var answers []ssa.CallInstruction
+		eachCall(fn, func(site ssa.CallInstruction) {
+			if site.Common().StaticCallee() == answer {
+				answers = append(answers, site)
+			}
+		})
+		if len(answers) == 0 {
+			continue
+		}
+		// the request: parameters that point to a wire struct of the module
+		var reqs []*ssa.Parameter
+		for _, prm := range fn.Params {
+			if pt, ok := prm.Type().(*types.Pointer); ok {
+				if n := namedOf(pt.Elem()); n != nil && inModuleType(n) && !isSharedType(n) {
+					if _, isStruct := n.Underlying().(*types.Struct); isStruct {
+						reqs = append(reqs, prm)
+					}
+				}
+			}
+		}
+		if len(reqs) == 0 {
+			continue
+		}
+		var fromReq func(v ssa.Value, depth int, seen map[ssa.Value]bool) bool
+		fromReq = func(v ssa.Value, depth int, seen map[ssa.Value]bool) bool {
+			if v == nil || depth > 10 || seen[v] {
+				return false
+			}
+			seen[v] = true
+			switch x := v.(type) {
+			case *ssa.Parameter:
+				for _, q := range reqs {
+					if q == x {
+						return true
+					}
+				}
+				return false
+			case *ssa.FieldAddr:
+				return fromReq(x.X, depth+1, seen)
+			case *ssa.Field:
+				return fromReq(x.X, depth+1, seen)
+			case *ssa.IndexAddr:
+				return fromReq(x.X, depth+1, seen)
+			case *ssa.Index:
+				return fromReq(x.X, depth+1, seen)
+			case *ssa.UnOp:
+				return fromReq(x.X, depth+1, seen)
+			case *ssa.Slice:
+				return fromReq(x.X, depth+1, seen)
+			case *ssa.ChangeType:
+				return fromReq(x.X, depth+1, seen)
+			case *ssa.Phi:
+				for _, e := range x.Edges {
+					if fromReq(e, depth+1, seen) {
+						return true
+					}
+				}
+			case *ssa.Alloc:
+				for _, ref := range refsOf(x) {
+					if st, ok := ref.(*ssa.Store); ok && st.Addr == ssa.Value(x) && fromReq(st.Val, depth+1, seen) {
+						return true
+					}
+				}
+			}
+			return false
+		}
+		// transitive closure of the (plain) control dependences
+		direct := controlDeps(fn)
+		tcd := map[*ssa.BasicBlock][]ctrlDep{}
+		for _, b := range fn.Blocks {
+			seenD := map[ctrlDep]bool{}
+			work := append([]ctrlDep{}, direct[b]...)
+			for len(work) > 0 {
+				d := work[len(work)-1]
+				work = work[:len(work)-1]
+				if seenD[d] {
+					continue
+				}
+				seenD[d] = true
+				tcd[b] = append(tcd[b], d)
+				work = append(work, direct[d.Branch]...)
+			}
+		}
+		eachCall(fn, func(site ssa.CallInstruction) {
+			call, ok := site.(*ssa.Call)
+			if !ok {
+				return
+			}
+			g := call.Common().StaticCallee()
+			if g == nil || !inLib(g) || g == answer {
+				return
+			}
+			res := g.Signature.Results()
+			if res.Len() == 0 || !isErrorType(res.At(res.Len()-1).Type()) {
+				return
+			}
+			// fed from the request only
+			n := 0
+			for _, a := range call.Common().Args {
+				if fromReq(a, 0, map[ssa.Value]bool{}) {
+					n++
+				}
+			}
+			if n == 0 || errSwallowed(call) {
+				return
+			}
+			// the test of the check's error, and its "no error" side
+			var tests []ctrlDep
+			var ev ssa.Value
+			if tup, isTup := call.Type().(*types.Tuple); isTup {
+				for _, ref := range refsOf(call) {
+					if ex, ok := ref.(*ssa.Extract); ok && isErrorType(tup.At(ex.Index).Type()) {
+						ev = ex
+					}
+				}
+			} else {
+				ev = call
+			}
+			if ev == nil {
+				return
+			}
+			for _, a := range append([]ssa.Value{ev}, storedAliases(ev)...) {
+				for _, ref := range refsOf(a) {
+					bo, ok := ref.(*ssa.BinOp)
+					if !ok || (bo.Op != token.NEQ && bo.Op != token.EQL) {
+						continue
+					}
+					for _, r2 := range refsOf(bo) {
+						if iff, ok := r2.(*ssa.If); ok {
+							nilSide := 1
+							if bo.Op == token.EQL {
+								nilSide = 0
+							}
+							tests = append(tests, ctrlDep{iff.Block(), nilSide})
+						}
+					}
+				}
+			}
+			if len(tests) == 0 {
+				return
+			}
+			r.Role("request-check")
+			for _, a := range answers {
+				ab := a.Block()
+				ok := false
+				for _, t := range tests {
+					// the answer is written only after the check came out
+					// well: it hangs (transitively) on the no-error side of
+					// the check's test, or that side dominates it
+					if t.Branch.Succs[t.Succ].Dominates(ab) {
+						ok = true
+					}
+					for _, d := range tcd[ab] {
+						if d == t {
+							ok = true
+						}
+					}
+				}
+				r.Ob(ok)
+				if !ok {
+					r.Violation("answer-before-check|"+fnKey(fn)+"|"+fnKey(g), p.instrPos(a), fmt.Sprintf("%s can write its multi-status answer at %s without the check of the request by %s (%s) having come out well: the answer does not depend on that check's outcome, so a request the check refuses with 4xx is answered 207 on that path", fnKey(fn), p.instrPos(a), fnKey(g), p.instrPos(call)), nil)
+				}
+			}
+		})
+	}
+	r.RequireRole("request-check")
+}
+
+func instrIndex(in ssa.Instruction) int {
+	for i, x := range in.Block().Instrs {
+		if x == in {
+			return i
+		}
+	}
+	return -1
 }
